@@ -1,7 +1,12 @@
 #!/bin/sh
-# Offline setup: make sure hypothesis is importable from /venv (it normally already is).
+# Offline setup: hypothesis must be importable from /venv (it normally already is); atheris (coverage-guided
+# extra of the thorough tier of C01) is unpacked from the offline wheelhouse into /verif/.deps.
 set -e
+HERE="$(cd "$(dirname "$0")" && pwd)"
 if ! /venv/bin/python -c "import hypothesis" 2>/dev/null; then
   PIP_NO_INDEX=1 /venv/bin/pip install --no-index --find-links /opt/veriftools/wheels hypothesis
+fi
+if ! PYTHONPATH="$HERE/.deps" /venv/bin/python -c "import atheris" 2>/dev/null; then
+  PIP_NO_INDEX=1 /venv/bin/pip install --no-index --find-links /opt/veriftools/wheels --target "$HERE/.deps" atheris >/dev/null 2>&1 || echo "setup: atheris not installable (the thorough tier of C01 will skip its coverage-guided extra)"
 fi
 /venv/bin/python -c "import hypothesis, attrs, cattrs, jsonschema; print('setup ok: hypothesis', hypothesis.__version__)"
